@@ -185,6 +185,13 @@ def run_case(p):
     with warnings.catch_warnings():
         warnings.simplefilter('ignore')
         ds = build_real(p, log, rngs)
+        # the pipeline consumed directly, through copy() and through copy(freeze=True): copying executes no
+        # user function either and the copy evaluates exactly like the original
+        view = ('direct', 'direct', 'copy', 'freeze')[len(json.dumps(p)) % 4]
+        if view == 'copy':
+            ds = ds.copy()
+        elif view == 'freeze':
+            ds = ds.copy(freeze=True)
         construction_calls = len(log)
         it = iter(ds)
         chunks = []
